@@ -174,6 +174,12 @@ class StyleExec(Exec):
         elif attr in ("font_color", "bg_color"):
             v = RGB(*value)
             self.smodel[idx][attr] = value
+        elif attr == "bg_image":
+            from numbers_parser import BackgroundImage
+
+            v = BackgroundImage(bytes.fromhex(value[1]), value[0])
+            self.smodel[idx][attr] = value
+            self.flags.add("image_set_after_creation")
         else:
             self.smodel[idx][attr] = value
         setattr(style, attr, v)
@@ -326,6 +332,11 @@ def make_style_machine(ctx):
             attr = data.draw(st.sampled_from(["bold", "italic", "underline", "strikethrough", "font_size", "font_color", "font_name", "alignment",
                                               "bg_color", "first_indent", "left_indent", "right_indent", "text_inset", "text_wrap"]))
             if attr == "bg_color" and self.ex.smodel[idx].get("bg_image") is not None:
+                return
+            if data.draw(st.integers(0, 7)) == 0 and self.ex.smodel[idx].get("bg_color") is None:
+                # a (new) background image given to an existing style
+                png = bytes([137, 80, 78, 71, 13, 10, 26, 10]) + data.draw(st.binary(min_size=4, max_size=20))
+                self.step("edit", idx=idx, attr="bg_image", value=[f"late_{len(self.ex.log)}.png", png.hex()])
                 return
             if attr in ("bold", "italic", "underline", "strikethrough", "text_wrap"):
                 value = data.draw(st.booleans())
